@@ -275,6 +275,50 @@ class PrevOracle:
         return None
 
 
+class DirtyOracle:
+    """C10: the content of every file with uncommitted modifications, and of every untracked
+    file, is the same after a command as before - unless the command is a documented discard
+    (--hard) or absorbs the changes on purpose (refresh; spill moves changes INTO the tree)."""
+
+    def __init__(self):
+        self.before = None
+
+    def dirty_files(self, real):
+        out = {}
+        st = real.r.git(["status", "--porcelain", "-uall"]).stdout
+        for line in st.split("\n"):
+            if not line:
+                continue
+            path = line[3:]
+            if " -> " in path:
+                path = path.split(" -> ")[1]
+            full = os.path.join(real.r.path, path)
+            try:
+                out[path] = open(full, "rb").read()
+            except OSError:
+                out[path] = None          # deleted in the work tree
+        return out
+
+    def __call__(self, real, snap, graph, i, c, ex, stderr):
+        before, self.before = self.before, self.dirty_files(real)
+        if before is None:
+            return None
+        k = c["c"]
+        if k in ("gedit", "gcommit", "gamend", "gmerge", "greset", "refresh", "spill"):
+            return None
+        if "hard" in c.get("flags", []):
+            return None
+        for path, content in before.items():
+            full = os.path.join(real.r.path, path)
+            try:
+                now = open(full, "rb").read()
+            except OSError:
+                now = None
+            if now != content:
+                return "uncommitted content of %r was changed by `stg %s` (exit %r)" % (path, k, ex)
+        return None
+
+
 def oracle_c09(real, snap, graph, i, c, ex, stderr):
     """after a conflict halt the conflicting patch is applied on top as an empty commit and
     the index has unmerged entries"""
@@ -353,6 +397,8 @@ def build_oracles(names):
             out += [oracle_c09, oracle_conflict_guard({})]
         elif n == "prev":
             out.append(PrevOracle())
+        elif n == "dirty":
+            out.append(DirtyOracle())
     return out
 
 
